@@ -49,6 +49,10 @@ type recorder struct {
 	mu    sync.Mutex
 	msgs  []recMsg
 	delay time.Duration // a slow consumer: every message takes that long
+	// like a file or a buffered logger, the recorder accepts nothing once it has been closed (the harness never closes it)
+	closed      bool
+	closeCalls  int
+	afterClosed int
 }
 
 var _ logs.Loggers = (*recorder)(nil)
@@ -69,12 +73,23 @@ func (l *recorder) record(isErr bool, args []interface{}) {
 		time.Sleep(l.delay)
 	}
 	l.mu.Lock()
+	if l.closed {
+		l.afterClosed++
+		l.mu.Unlock()
+		return
+	}
 	m.seq = len(l.msgs)
 	l.msgs = append(l.msgs, m)
 	l.mu.Unlock()
 }
 
-func (l *recorder) Close() error                 { return nil }
+func (l *recorder) Close() error {
+	l.mu.Lock()
+	l.closed = true
+	l.closeCalls++
+	l.mu.Unlock()
+	return nil
+}
 func (l *recorder) Check() error                 { return nil }
 func (l *recorder) SetLogSource(string) error    { return nil }
 func (l *recorder) SetLoggerSource(string) error { return nil }
@@ -219,6 +234,12 @@ func (m *monitor) run(cs *caseSpec) *runResult {
 				_ = os.Remove(donePath)
 				runErr = p.Execute()
 			}
+		case "output-then-execute":
+			// the caller's loggers serve two runs: Output first, then Execute, which is the one judged
+			_, _ = subprocess.Output(ctx, rec, m.exe, args...)
+			rec.reset()
+			_ = os.Remove(donePath)
+			runErr = subprocess.Execute(ctx, rec, res.tokStart, res.tokOK, res.tokFail, m.exe, args...)
 		case "new-env-execute":
 			p, startErr = subprocess.NewWithEnvironment(ctx, rec, cs.Env, res.tokStart, res.tokOK, res.tokFail, m.exe, args...)
 			if startErr == nil {
